@@ -33,7 +33,7 @@ Open Scope N_scope.
 
 def hlex(args, timeout=1800):
     p = subprocess.run([os.path.join(BIN, "h_lex")] + args, cwd=REPO, env=vcheck.goenv(), stdout=subprocess.PIPE,
-                       stderr=subprocess.PIPE, timeout=timeout, text=True)
+                       stderr=subprocess.PIPE, timeout=timeout * vcheck.TSCALE, text=True)
     if p.returncode != 0:
         raise vcheck.Broken("h_lex failed", (p.stdout[-1500:] + p.stderr[-1500:]))
     rows = [json.loads(l) for l in p.stdout.splitlines() if l.startswith("{")]
@@ -75,7 +75,7 @@ class Hang(Exception):
 def go_cksums(items):
     spec = ",".join("%s:%d" % (p.hex(), d) for p, d in items)
     p = subprocess.run([os.path.join(BIN, "h_lex"), "-cksum", spec], cwd=REPO, env=vcheck.goenv(), stdout=subprocess.PIPE,
-                       stderr=subprocess.PIPE, timeout=3000, text=True)
+                       stderr=subprocess.PIPE, timeout=3000 * vcheck.TSCALE, text=True)
     if p.returncode == 3:
         raise Hang(p.stderr.strip()[-300:])
     if p.returncode != 0:
